@@ -3,9 +3,10 @@
 (oracle = the property statement; the contracts on ErrorHandler._handle_if / ErrorCommsManager / Expression.matches / Matcher.matches are proved,
 this script closes the glue between them on the real CsvPath).
 
- scope  all 63 non-empty subsets of {raise, collect, stop, fail, print, quiet} x 4 error kinds (a Python exception inside a function at top level,
-        on the right-hand side of an assignment, nested inside not(), and on the left of a when/do) x the offending line at every position of a
-        4-record file (quick: first, middle, last) x 7 validation-mode overrides (none; no-raise,no-stop; raise; no-fail; fail; no-print; print,stop)
+ scope  all 63 non-empty subsets of {raise, collect, stop, fail, print, quiet} x 5 error kinds (a Python exception inside a function at top level,
+        on the right-hand side of an assignment, nested inside not(), on the left of a when/do, and followed by a stop() that fires on the same
+        line) x the offending line at every position of a 4-record file incl. the file's first physical line, line 0 (quick: 0, first, middle,
+        last) x 7 validation-mode overrides (none; no-raise,no-stop; raise; no-fail; fail; no-print; print,stop)
  clause the exception reaches the caller iff raise; an error record with the offending line's number is collected iff collect; is_valid is False iff
         fail; no later line is evaluated iff stop; a message goes to the printer iff print; the offending line is not returned
 """
@@ -15,10 +16,11 @@ from blib import Bounded, run_guarded
 
 FLAGS = ["raise", "collect", "stop", "fail", "print", "quiet"]
 KINDS = {
-    "top_level": 'add(#n, 1)',
-    "right_hand_side": '@v = add(#n, 1)',
-    "nested": 'not(add(#n, 1) == 99)',
-    "when_left": 'add(#n, 1) == 2 -> @w = 1',
+    "top_level": 'add(#0, 1)',
+    "right_hand_side": '@v = add(#0, 1)',
+    "nested": 'not(add(#0, 1) == 99)',
+    "when_left": 'add(#0, 1) == 2 -> @w = 1',
+    "before_a_stop_on_the_same_line": 'add(#0, 1) stop(#0 == "oops")',
 }
 OVERRIDES = {"none": ("", {}), "no_raise_no_stop": ("validation-mode: no-raise, no-stop", {"raise": False, "stop": False}), "raise": ("validation-mode: raise", {"raise": True}),
              "no_fail": ("validation-mode: no-fail", {"fail": False}), "fail": ("validation-mode: fail", {"fail": True}),
@@ -31,7 +33,7 @@ def main():
     from csvpath.util.printer import TestPrinter
     subsets = [list(c) for k in range(1, len(FLAGS) + 1) for c in itertools.combinations(FLAGS, k)]
     N = 4
-    positions = list(range(1, N + 1)) if b.thorough() else [1, 2, N]
+    positions = list(range(0, N + 1)) if b.thorough() else [0, 1, 2, N]      # 0: the file's first physical line (no header row, scan *)
     items = [(pol, kind, pos, ov) for pol in subsets for kind in KINDS for pos in positions for ov in OVERRIDES]
     if not b.thorough():
         items = [it for k, it in enumerate(items) if it[3] == "none" or k % 5 == 0]
@@ -45,7 +47,8 @@ def main():
         pol, kind, pos, ov = item
         key = {"policy": pol, "kind": kind, "offending_line": pos, "override": ov}
         b.case(key)
-        rows = ["n,t"] + [("oops,r%d" % i if i == pos else "%d,r%d" % (i, i)) for i in range(1, N + 1)]
+        rows = (["n,t"] if pos > 0 else ["oops,r0"]) + [("oops,r%d" % i if i == pos else "%d,r%d" % (i, i)) for i in range(1, N + 1)]
+        scan = "1*" if pos > 0 else "*"
         fn = b.write_lines("f.csv", rows)
         comment, forced = OVERRIDES[ov]
         eff = {f: (f in pol) for f in FLAGS}
@@ -58,7 +61,7 @@ def main():
             p.add_printer(tp)
             p.config.csvpath_errors_policy = list(pol)
             try:
-                p.parse(f"~ id: e {comment} ~ ${fn}[1*][ push(\"seen\", line_number()) {KINDS[kind]} ]")
+                p.parse(f"~ id: e {comment} ~ ${fn}[{scan}][ push(\"seen\", line_number()) {KINDS[kind]} ]")
                 lines = p.collect()
             except Exception as e:
                 raised = e
@@ -85,9 +88,9 @@ def main():
         # ---- stop: no later line is evaluated
         if raised is None:
             later = [x for x in seen if x > pos]
-            if eff["stop"] and later:
+            if (eff["stop"] or kind == "before_a_stop_on_the_same_line") and later:
                 b.fail("run_stops_at_that_line_iff_stop", key, "lines evaluated after the offending line", later, [])
-            if not eff["stop"] and later != list(range(pos + 1, N + 1)):
+            if not eff["stop"] and kind != "before_a_stop_on_the_same_line" and later != list(range(pos + 1, N + 1)):
                 b.fail("run_stops_at_that_line_iff_stop", key, "lines evaluated after the offending line", later, list(range(pos + 1, N + 1)))
             # ---- the offending line does not match
             got = [list(x) for x in (lines or [])]
